@@ -70,6 +70,8 @@ def deploy_e(project, a, version, decls, with_decls, hollow=()):
                 if d[0] in ('eam', 'ebm') and d[1] == a and d[2] == i:
                     key = 'AFTER_MIGRATIONS' if d[0] == 'eam' else 'BEFORE_MIGRATIONS'
                     deps.setdefault(key, []).append((gapp(d[3]), mig_name(d[4])))
+                if d[0] == 'eae' and d[1] == a and d[2] == i:
+                    deps.setdefault('AFTER_EVOLUTIONS', []).append((eapp(d[3]), 'e%d' % d[4]))
         evos.append({'label': 'e%d' % i,
                      'mutations_src': [] if ('evo', a, i) in hollow else
                      ["AddField('Item%d', 'f%d', models.IntegerField, null=True)" % (a, i)],
